@@ -22,6 +22,7 @@ ORACLES = {
     'stream0-order': ('c05', 'stream0_order_oracle', 'stream0_case', 4),
     'messaging-transport-failure': ('c04', 'messaging_battery', 'messaging_case', 60),
     'rx-adapter-session': ('c20', 'adapter_session_oracle', 'adapter_session', 10),
+    'gated-responder-error': ('c08', 'gated_oracle', 'gated_case', 24),
     'endpoint-reads': ('c04', 'endpoint_reads_battery', 'kind', 100),
 }
 
